@@ -2,6 +2,8 @@
 behaviour generation) -> replay into the code -> record from the code -> TLC trace validation."""
 import os
 
+import vlib
+
 TRUSTED = [
     "TLC 1.8.0 and the CommunityModules Json/CSV/IOUtils operators",
     "the transcription of RFC 7252/7641/7959/6690/3629 and the IANA registries into spec/*.tla",
@@ -255,31 +257,85 @@ def _block_traces(ctx, drivers, props, bins=None):
             rm(tr)
 
 
+def _never(module, env):
+    """actions that the chosen MODE disables by construction (not a vacuity problem)"""
+    if module == "MC_BlockMulti":
+        return {"iso": ("Tick", "Other", "HostileStep"), "expiry": ("HostileStep",), "hostile": ("Tick", "Other", "TransferStep")}[env["MODE"]]
+    if module == "MC_BlockTransfer":
+        return {"dl": ("UlAbandonStep", "UlSend"), "ul": ("DlSend", "DlAfter")}[env["MODE"]]
+    return ()
+
+
+def _scripts(ctx, module, env, props, label, workers=8, bins=None, maxn=None, expect=None):
+    """spec -> impl for the handler: TLC emits complete behaviours as call scripts; they are executed
+    on the real handler and the recorded calls go through Trace_BlockHandler like any other trace."""
+    bins = bins or (ctx.build("dev"), ctx.build("release"))
+    out = ctx.path("scripts-%s.nd" % label)
+    e = dict(env)
+    e["OUT"] = out
+    ctx.model_check(module, env=e, workers=workers, timeout=1800, allow_never=_never(module, env), coverage=False, expect_states=expect)
+    if os.path.getsize(out) == 0:
+        raise vlib.ToolError("model %s emitted no script (vacuity guard)" % module)
+    for b in bins:
+        tr = ctx.path("script-trace-%s-%s.ndjson" % (label, os.path.basename(b)))
+        args = ["rec", "script", "--in", out, "--out", tr]
+        if maxn:
+            args += ["--max", maxn]
+        info = ctx.harness(b, *args)
+        ctx.events += int(info.get("events", 0))
+        ctx.vectors += int(info.get("scripts", 0))
+        ctx.validate("Trace_BlockHandler", tr, props, label="scripts-%s-%s" % (label, os.path.basename(b)), timeout=2400)
+        rm(tr)
+    rm(out)
+
+
 def c08(ctx):
+    size = "full" if ctx.thorough else "small"
+    _scripts(ctx, "MC_BlockTransfer", {"MODE": "dl", "SIZE": size}, {"C08"}, "dl")
     _block_traces(ctx, ["block2", "budget"], {"C08"})
 
 
 def c09(ctx):
+    size = "full" if ctx.thorough else "small"
+    _scripts(ctx, "MC_BlockTransfer", {"MODE": "ul", "SIZE": size}, {"C09"}, "ul")
     _block_traces(ctx, ["block1", "budget"], {"C09"})
 
 
 def c10(ctx):
+    ctx.model_check("MC_Negotiate", env={"NPS": "wide" if ctx.thorough else "slab"}, workers=12, timeout=2400)
+    size = "full" if ctx.thorough else "small"
+    _scripts(ctx, "MC_BlockTransfer", {"MODE": "dl", "SIZE": size}, {"C10"}, "dl")
     _block_traces(ctx, ["budget", "block2"], {"C10"})
 
 
 def c11(ctx):
+    size = "full" if ctx.thorough else "small"
+    env = {"MODE": "hostile", "SIZE": size, "DEPTH": 2}
+    ctx.model_check("MC_BlockMulti", env=env, workers=12, timeout=2400, coverage=False, expect_states=100)
+    _scripts(ctx, "MC_BlockMulti", {"MODE": "hostile", "SIZE": size, "DEPTH": 2 if ctx.thorough else 1}, {"C11"}, "hostile")
     _block_traces(ctx, ["hostile"], {"C11"})
 
 
 def c12(ctx):
+    size = "full" if ctx.thorough else "small"
+    _scripts(ctx, "MC_BlockMulti", {"MODE": "iso", "SIZE": size, "DEPTH": 12}, {"C12"}, "iso")
     _block_traces(ctx, ["isolation", "hostile"], {"C12"})
 
 
 def c20(ctx):
+    size = "full" if ctx.thorough else "small"
+    # exhaustive model check deeper than what is replayed in real time
+    env = {"MODE": "expiry", "SIZE": size, "DEPTH": 8 if ctx.thorough else 7}
+    ctx.model_check("MC_BlockMulti", env=env, workers=12, timeout=2400, coverage=False, expect_states=100)
+    _scripts(ctx, "MC_BlockMulti", {"MODE": "expiry", "SIZE": size, "DEPTH": 6 if ctx.thorough else 5}, {"C20"}, "expiry",
+             bins=(ctx.build("dev"),) if not ctx.thorough else None)
     _block_traces(ctx, ["expiry"], {"C20"})
 
 
-BLOCK_RULE = ("Recorded calls of intercept_request / intercept_response (arguments, outcome, prepared reply, rewritten request "
+BLOCK_RULE = ("TLC model-checks the handler operators against client processes (MC_BlockTransfer: every AllowedSzx choice, "
+              "liveness), all interleavings of scripted transfers with the solo-run oracle, clock ticks with expiry, and hostile "
+              "request sequences (MC_BlockMulti), and the negotiation lemma (MC_Negotiate); complete behaviours are emitted as call "
+              "scripts and executed on the real handler. Recorded calls of intercept_request / intercept_response (arguments, outcome, prepared reply, rewritten request "
               "payload, cache snapshot through the cfg(coap_lite_verif) hook, monotonic time before/after) are validated one by one "
               "by Trace_BlockHandler against the operators of BlockHandler.tla; transfer-level summaries (reassembled body, number of "
               "application calls, solo vs interleaved responses, reclaimed endpoints) are validated as well. A case is one recorded "
